@@ -452,6 +452,7 @@ def run(ctx):
                       "Eval vm_compute in (bad chk_oper cases).\n" % ";\n".join(part), part, "bool_oper_walk"))
     if len(olines) < len([c for c in pair_cases if c.get("table")]):
         ctx.broken.append(("correspondence:walk_coverage", "only %d walk traces could be encoded" % len(olines)))
+    ctx.count("malformed_polygons_correspondence_only", len(mal))
     ctx.count("corr_area_cases", len(lines))
     ctx.count("corr_walk_cases", len(olines))
     res = ctx.coq_eval_many([(n, t) for n, t, _, _ in texts])
